@@ -110,7 +110,7 @@ def gen(rng, cfg, big):
             for connected in (itertools.product([0, 1], repeat=n) if n <= 4 else [tuple(rng.randint(0, 1) for _ in range(n)) for _ in range(8)]):
                 for hasdata in (itertools.product([0, 1], repeat=n) if n <= 3 else [tuple(rng.randint(0, 1) for _ in range(n)) for _ in range(6)]):
                     ops = [[1, i, ext + i] for i in range(n) if connected[i]]
-                    t = rng.choice([0, -10**9, 10**12, rng.randint(-10**10, 10**10)])
+                    t = rng.choice([0, -10**9, 10**12, rng.randint(-10**10, 10**10), I64_MIN + 3, I64_MIN + 3])
                     for i in range(n):
                         if hasdata[i]:
                             ops.append([3, i, t + rng.randint(-3, 3)] + rstate(rng))
